@@ -66,6 +66,11 @@ pub fn lists(thorough: bool, seed: usize) -> Vec<Vec<Vec<u8>>> {
     // long patterns (verification beyond the fingerprint), 1..4 byte minimum length
     v.push(vec![vec![b'a'; 30], { let mut p = vec![b'a'; 29]; p.push(b'b'); p }]);
     v.push(vec![b"x".to_vec(), b"abcdefghijklmnopqrstuvwxyz".to_vec()]);
+    // pattern lengths around the word sizes of a confirmation memcmp
+    for k in 0..9usize {
+        let lens = [13usize, 16, 17, 21, 22, 24, 29, 32, 40];
+        v.push((0..5).map(|i| { let mut p = vec![b"QZ#qz"[i]]; p.extend((0..lens[(k + i) % 9] - 1).map(|j| b"aet-"[(j * 7 + i + k) % 4])); p }).collect());
+    }
     // long minimum lengths: rolling-hash window wider than the 64-bit hash (>= 65 bytes)
     for minl in [33usize, 63, 64, 65, 66, 100] {
         let base: Vec<u8> = (0..minl + 20).map(|i| b'a' + (i % 26) as u8).collect();
@@ -142,6 +147,19 @@ pub fn run(args: &Args) -> Report {
                     h[at..at + p.len()].copy_from_slice(p);
                 }
             }
+            hays.push(h);
+        }
+        // near misses of the longer patterns: exactly one byte changed, at every position
+        for p in pats.iter().filter(|p| p.len() >= 8 && p.len() <= 48).take(6) {
+            let mut h = vec![b'.'; 20];
+            for j in 0..p.len() {
+                let mut q = p.clone();
+                q[j] = if q[j] == b'_' { b'-' } else { b'_' };
+                h.extend_from_slice(&q);
+                h.push(b'.');
+            }
+            h.extend_from_slice(p);
+            h.extend_from_slice(&[b'.'; 20]);
             hays.push(h);
         }
         for kind in [Kind::LF, Kind::LL] {
